@@ -29,13 +29,13 @@ lack of memory. -/
 theorem loan_never_out_of_memory (cfg : Cfg) (hc : cfg.Sane) (w : World) (h : Reach cfg w)
     (hnp : w.panicked = false) (p l : Nat) :
     (step w (.loan p l)).2 ≠ "err:OutOfMemory" := by
-  exact (step_loan (reach_inv hc h) p l).2.1
+  exact (step_loan hc.2.2.2.2.2 (reach_inv hc h) p l).2.1
 
 /-- … and the loan-to-exhaustion probe is always stopped by the loan limit, never by memory. -/
 theorem probe_never_out_of_memory (cfg : Cfg) (hc : cfg.Sane) (w : World) (h : Reach cfg w)
     (hnp : w.panicked = false) (p : Nat) (P : Pub) (hp : getP w p = some P) (ha : P.alive = true) :
     (step w (.probe p)).2 = s!"{P.maxLoans - P.loans.length}:ExceedsMaxLoans" := by
-  exact (step_probe (reach_inv hc h) p).2.2 P hp ha
+  exact (step_probe hc.2.2.2.2.2 (reach_inv hc h) p).2.2 P hp ha
 
 /-- A loan is decided by the loan limit alone: it succeeds iff fewer than `max_loaned_samples`
 loans are out (so it succeeds again as soon as one loan is returned); a refused loan changes
@@ -51,7 +51,7 @@ theorem loan_ok_iff (cfg : Cfg) (hc : cfg.Sane) (w : World) (h : Reach cfg w) (h
   have hfresh' : ∀ lc ∈ P.loans, lc.1 ≠ l := by
     intro lc hlc e
     exact hfresh lc.2 (by rw [← e]; exact hlc)
-  exact (step_loan (reach_inv hc h) p l).2.2.2 P hp ha hfresh'
+  exact (step_loan hc.2.2.2.2.2 (reach_inv hc h) p l).2.2.2 P hp ha hfresh'
 
 /-- A release never fails for lack of queue space: the completion queue of a connection never
 holds more than `buffer + max borrowed` entries (its capacity is one more). -/
